@@ -1,12 +1,14 @@
 """C06 — call checking: arguments against parameter types, result type (kind E)."""
 import inspect
 import itertools
+import re
 import typing
 
 from mc.core import UnitResult
 from ref import universe as U
 
 ID = "C06"
+PARTS = ["starseq", "expected=True", "expected=False"]
 RULE = ("state = (annotated function form, call with literal arguments): forms = plain/defaulted/*args/**kwargs/positional-only/keyword-only parameters, TypeVar-generic "
         "(plain, bounded, constrained, in containers, Callable), instance/class/static methods, __init__ and dataclass constructors; calls = every tuple of literals up to the "
         "arity bound, positionally and by keyword; oracle: the call is executed; for calls that bind, diagnosed <=> some argument is not a member of the declared type of the "
@@ -117,7 +119,7 @@ def calls_for(sig_src, ns, arity):
 
 def _all_units(tier):
     fs = all_forms()
-    return [(tier, i) for i in range(len(fs))]
+    return [(tier, i) for i in range(len(fs))] + [(tier, "starseq")]
 
 
 def bounds(tier):
@@ -311,15 +313,82 @@ def _norm(msg):
     return m[:70]
 
 
+# ---- star arguments of unknown length (typed sequences) into *args: every sequence of 1-3 star arguments, optionally with a literal between them ----------
+SS_FORMS = ["def f(*args: int) -> int: return len(args)", "def f(a: int, *args: int) -> int: return a", "def f(*args: T) -> T: return args[0]", "def f(a: object, *args: str) -> object: return a"]
+SS_VARS = [("ii", "list[int]", "int"), ("ss", "Sequence[str]", "str"), ("ti", "tuple[int, ...]", "int"), ("ts", "tuple[str, ...]", "str"), ("bb", "list[bool]", "bool")]
+_SS_OK = {("int", "int"), ("bool", "int"), ("str", "str"), ("int", "object"), ("str", "object"), ("bool", "object")}
+
+
+def _starseq(res, only=None):
+    from pa.run import check
+    names = [v[0] for v in SS_VARS]
+    elem = {v[0]: v[2] for v in SS_VARS}
+    seqs = []
+    for n in (1, 2, 3):
+        for combo in itertools.product(names, repeat=n):
+            seqs.append(["*" + x for x in combo])
+            if n == 2:
+                seqs.append(["*" + combo[0], "1", "*" + combo[1]])
+                seqs.append(["*" + combo[0], "'s'", "*" + combo[1]])
+    for fi, fsrc in enumerate(SS_FORMS):
+        lines = ["    reveal_type(f(%s))" % ", ".join(a) for a in seqs]
+        hdr = U.PRELUDE + HELP + fsrc + "\ndef caller(" + ", ".join("%s: %s" % (v[0], v[1]) for v in SS_VARS) + ") -> None:\n"
+        src = hdr + "\n".join(lines) + "\n"
+        first = src.count("\n") - len(lines) + 1
+        fails = check(src)
+        res.transitions += 1
+        by = {}
+        for fl in fails:
+            by.setdefault(fl.get("lineno"), []).append((fl["code"].name, fl.get("description", "")))
+        m = re.match(r"def f\((?:a: (\w+), )?\*args: (\w+)\)", fsrc)
+        first_t, star_t = m.group(1), m.group(2)
+        for ai, args in enumerate(seqs):
+            if only is not None and [fi, args] != only:
+                continue
+            res.states += 1
+            res.validated += 1
+            ds = by.get(first + ai, [])
+            diagnosed = any(c in ("incompatible_argument", "incompatible_call") for c, _ in ds)
+            rev = next((d for c, d in ds if c == "reveal_type"), "")
+            # element types that may reach each parameter: the first parameter (if any) may take the first element of the leading star argument(s) or a literal
+            ets = [elem[a[1:]] if a.startswith("*") else ("int" if a == "1" else "str") for a in args]
+            case = {"mode": "starseq", "fi": fi, "args": args, "order": 10 ** 7 + fi * 1000 + ai}
+            desc = "%s; call f(%s) with %s" % (fsrc, ", ".join(args), ", ".join("%s: %s" % (v[0], v[1]) for v in SS_VARS))
+            if star_t == "T":
+                ok_types = True
+            else:
+                # an element type that is acceptable neither for the first parameter nor for *args must be diagnosed; one that fits *args everywhere never is
+                bad_everywhere = any((t, star_t) not in _SS_OK and (first_t is None or (t, first_t) not in _SS_OK) for t in ets)
+                fits_everywhere = all((t, star_t) in _SS_OK and (first_t is None or (t, first_t) in _SS_OK) for t in ets)
+                ok_types = None if not (bad_everywhere or fits_everywhere) else fits_everywhere
+            res.outcomes["starseq:%s/%s" % ({True: "fits", False: "ill-typed", None: "position-dependent"}[ok_types], "diagnosed" if diagnosed else "accepted")] += 1
+            if ok_types is False and not diagnosed:
+                res.violation({"kind": "missed", "family": "starseq", "form": _abstract(fsrc), "nstars": str(sum(a.startswith("*") for a in args))}, case, "%s: an element type fits no parameter but the call is not diagnosed" % desc)
+            elif ok_types is True and diagnosed and star_t != "T":
+                res.violation({"kind": "false-alarm", "family": "starseq", "form": _abstract(fsrc), "nstars": str(sum(a.startswith("*") for a in args))}, case, "%s: every element type fits but the call is diagnosed (%s)" % (desc, ds[0][1][:100]))
+            elif star_t == "T" and not diagnosed and "Any[" not in rev:
+                missing = [t for t in set(ets) if not re.search(r"\b%s\b" % t, rev) and not (t == "bool" and re.search(r"\bint\b", rev)) and not (t == "int" and "Literal[1]" in rev) and not (t == "str" and "Literal['s']" in rev)]
+                if missing:
+                    res.violation({"kind": "result-unsound", "family": "starseq", "form": _abstract(fsrc), "nstars": str(sum(a.startswith("*") for a in args))}, case,
+                                  "%s: the result may be a %s at run time but is typed %s" % (desc, "/".join(sorted(missing)), rev))
+    res.sample({"starseq_forms": SS_FORMS, "argument_sequences": len(seqs)})
+
+
 def run_unit(unit):
     tier, fi = unit
     res = UnitResult()
+    if fi == "starseq":
+        _starseq(res)
+        return res
     _run_form(res, tier, fi)
     return res
 
 
 def replay(case):
     res = UnitResult()
+    if case.get("mode") == "starseq":
+        _starseq(res, only=[case["fi"], case["args"]])
+        return list(res.viol.values())
     _run_form(res, "quick", case["form"], only_call=(case["pos"], case["kw"]))
     return list(res.viol.values())
 
